@@ -272,7 +272,11 @@ class SimClient:
         return out[1]
 
     def history(self, ops, passive, timeout=180.0, warn_mode="ignore"):
-        return self._raw(b"H", pickle.dumps((ops, passive, warn_mode), protocol=4), timeout)
+        # canonical form (sorted keys, plain lists): a history loaded from a replay file is then byte-identical
+        # to the one that was minimised, so even memory addresses in the simulated process are the same
+        import json
+        canon = json.loads(json.dumps(ops, sort_keys=True))
+        return self._raw(b"H", pickle.dumps((canon, passive, warn_mode), protocol=4), timeout)
 
     def presets(self):
         return self._raw(b"P", b"", 60.0)
